@@ -1,6 +1,7 @@
 package main
 
 import (
+	"reflect"
 	"fmt"
 	"math/rand"
 	"net"
@@ -50,7 +51,23 @@ func reuse(b []byte) {
 	}
 }
 
+// ownDecoded: what a decoder returns belongs to the caller, who may write into it (a relay sets giaddr in place, a
+// server edits options): after a value has been projected, every byte it can reach is overwritten, so that a later
+// decode which shares memory with it shows
+var ownDecoded = true
+
 func dec4(b []byte) (out map[string]any, p *dhcpv4.DHCPv4) {
+	out, p = dec4keep(b)
+	if p != nil && ownDecoded {
+		cp, err := dhcpv4.FromBytes(append([]byte(nil), b...)) // the value handed to the caller stays intact; its twin is written over
+		if err == nil {
+			scribbleValue(reflect.ValueOf(cp), 0)
+		}
+	}
+	return
+}
+
+func dec4keep(b []byte) (out map[string]any, p *dhcpv4.DHCPv4) {
 	defer func() {
 		if r := recover(); r != nil {
 			out = map[string]any{"panic": fmt.Sprint(r)}
@@ -431,6 +448,47 @@ func genC04(o *Out, rng *rand.Rand, tier string) {
 				w = append(w, 53, 1, byte(1+(ht+hl)%8), 61, 3, 1, byte(ht), byte(hl), 255)
 				emit(w, "hardware-type-by-address-length")
 			}
+		}
+	}
+	// (b0) options areas of the sizes fixed-format BOOTP knew (64-octet vend field: 60 after the cookie) and around them,
+	// tiled exactly by options: with End as the last octet, with End and pad, and without any End (never well-formed)
+	for _, size := range []int{4, 59, 60, 61, 63, 64, 72, 308, 312} {
+		for variant := 0; variant < 6; variant++ {
+			area := make([]byte, 0, size)
+			with53 := variant%2 == 0
+			room := size
+			if variant/2 == 1 {
+				room-- // End is the last octet
+			}
+			if variant/2 == 2 {
+				room -= 3 // End, then two pad octets
+			}
+			if with53 && room >= 3 {
+				area = append(area, 53, 1, 1)
+			}
+			for len(area) < room {
+				left := room - len(area)
+				if left == 1 {
+					area = append(area, 0) // a pad octet
+					break
+				}
+				n := left - 2
+				if n > 20 && left > 24 {
+					n = 3 + rng.Intn(17)
+					if left-2-n == 1 {
+						n--
+					}
+				}
+				area = append(area, byte(60+len(area)%100), byte(n))
+				area = append(area, randBytes(rng, n)...)
+			}
+			switch variant / 2 {
+			case 1:
+				area = append(area, 255)
+			case 2:
+				area = append(area, 255, 0, 0)
+			}
+			emit(append(append([]byte(nil), hdr...), area...), "exact-size-areas")
 		}
 	}
 	// (b1) one option in very many instances: totals around and beyond what 16 bits count (larger than any datagram;
